@@ -178,10 +178,10 @@ def unpackdict(table, fi, keys=None, includeoriginal=False, missing=None, sample
     return out
 
 
-def capture(table, fi, pattern, newfields=None, include_original=False, fill=None):
+def capture(table, fi, pattern, newfields=None, include_original=False, fill=None, flags=0):
     """Returns (rows, raises): the expected output rows up to (excluding) the first row whose value does
     not match when fill is None (the documentation promises an error there), else all rows."""
-    prog = re.compile(pattern)
+    prog = re.compile(pattern, flags)
     out = [tuple(_others(table[0], fi, include_original) + list(newfields or []))]
     for row in table[1:]:
         m = prog.search(row[fi])
@@ -195,17 +195,17 @@ def capture(table, fi, pattern, newfields=None, include_original=False, fill=Non
     return out, False
 
 
-def split(table, fi, pattern, newfields=None, include_original=False, maxsplit=0):
-    prog = re.compile(pattern)
+def split(table, fi, pattern, newfields=None, include_original=False, maxsplit=0, flags=0):
+    prog = re.compile(pattern, flags)
     out = [tuple(_others(table[0], fi, include_original) + list(newfields or []))]
     for row in table[1:]:
         out.append(tuple(_others(row, fi, include_original) + prog.split(row[fi], maxsplit)))
     return out
 
 
-def splitdown(table, fi, pattern, maxsplit=0):
+def splitdown(table, fi, pattern, maxsplit=0, flags=0):
     """One output row per piece of the split value, all other cells repeated unchanged."""
-    prog = re.compile(pattern)
+    prog = re.compile(pattern, flags)
     out = [tuple(table[0])]
     for row in table[1:]:
         for piece in prog.split(row[fi], maxsplit):
